@@ -153,6 +153,13 @@ class Check(object):
                            % (self.pid, self.tier),
             'repo_root': self.repo.root,
         }
+        if getattr(self.repo, 'canonicalised', None):
+            cov['analysed_through_reviewed_text'] = {
+                'functions': list(self.repo.canonicalised),
+                'why': 'their current text differs from the reviewed text '
+                       'but is the same function in strict normal form '
+                       '(decision table over path summaries, messages and '
+                       'raise arguments included)'}
         if self.exhaustive is not None:
             cov['exhaustive'] = bool(self.exhaustive)
         cov.update(self.extra)
